@@ -3,6 +3,7 @@ CONSTANTS
   MaxN = 4
   Whats = {"ok", "block", "garbage"}
   MaxExtra = 1
+  MaxOver = 0
   Ops = {"list"}
 VIEW ViewNoHist
 INVARIANTS TypeOK IntersectionOnce
